@@ -25,6 +25,8 @@ targets is touched).  What this front end adds, all fail-closed (anything else i
           `f(x..)` -> `(E1[x..] if C else E2[x..])`.
       N3  `if not all((G for d in range(..))): BODY`  ->  `for d in range(..): if not (G): BODY`  (BODY must end in return;
           all() stops at the first false element, so does the loop);
+      N5  (take_closest only) `if C: v = e else: v = [names]` for names v not assigned before, C not reading them -> `v = [names]` in front,
+          then `if C: v = e` (the hoisted right-hand sides are displays of names: nothing can raise);
       N4  a chained comparison `a <= b <= c` whose middle operand is pure -> `a <= b and b <= c`.
     The rewritten bodies are printed into the generated file as a comment (ast.unparse), so the reader sees what was translated.
 Usage: py2gallina_c16.py [--repo DIR] [--out FILE] [--stdout]      (VERIF_REPO is respected like in the shared translator)"""
@@ -37,11 +39,14 @@ sys.path.insert(0, os.path.dirname(os.path.abspath(__file__)))
 import py2gallina as P          # noqa: E402
 
 TARGET = 'density'
-ATTRS = {'dim': P.INT, 'grid_modified_basis': P.BOOL}
-METHODS = ['calculate_R_value_analytically', 'hat_function_non_symmetric', 'hat_function', 'check_adjacency']
+N5_METHODS = {'take_closest'}
+ATTRS = {'dim': P.INT, 'grid_modified_basis': P.BOOL, 'debug': P.BOOL}
+METHODS = ['calculate_R_value_analytically', 'hat_function_non_symmetric', 'hat_function', 'check_adjacency', 'get_hat_domain',
+           'take_closest']
 P.NUM_TARGETS[TARGET] = dict(
     file='sparseSpACE/GridOperation.py', out='DensityGen.v', prop='C16',
-    classes=[dict(name='DensityEstimation', mode='param', methods=METHODS, attrs=ATTRS)],
+    classes=[dict(name='MachineLearning', mode='param', methods=[], attrs=ATTRS),
+             dict(name='DensityEstimation', mode='param', methods=METHODS, attrs=ATTRS)],
     fuel={})
 
 
@@ -94,6 +99,7 @@ class Normaliser:
     def __init__(self, fn):
         self.fn = fn
         self.lams = {}        # name -> ('one', lambda) | ('sel', cond, lambda1, lambda2)
+        self.assigned_before = {a.arg for a in fn.args.args}
         self.applied = []
 
     def rej(self, node, msg):
@@ -148,6 +154,12 @@ class Normaliser:
                 self.rej(n, 'lambda outside the shapes N1/N2')
         return node
 
+    def lead(self, stmts):
+        k = 0
+        while k < len(stmts) and isinstance(stmts[k], ast.Assign) and len(stmts[k].targets) == 1 and isinstance(stmts[k].targets[0], ast.Name):
+            k += 1
+        return k
+
     def simple_assigns(self, stmts):
         out = []
         for s in stmts:
@@ -195,6 +207,24 @@ class Normaliser:
                                 lineno=s.lineno), s))
                     self.applied.append('N2 (line %d)' % s.lineno)
                     continue
+            # N5: `if C: v.. = e.. else: v.. = pure..` with names that are not assigned before and an else branch that consists only of
+            # simple assignments of list displays of NAMES (pure: nothing can raise, no side effect): the else assignments are hoisted
+            # in front of the if and the else branch is dropped (C cannot read the names: they do not exist yet)
+            if isinstance(s, ast.If) and s.orelse and self.fn.name in N5_METHODS:
+                a1, a2 = self.simple_assigns(s.body), self.simple_assigns(s.orelse)
+                if a1 and a2 and [n for n, _, _ in a1] == [n for n, _, _ in a2] \
+                        and all(isinstance(v, ast.List) and all(isinstance(x, ast.Name) for x in v.elts) for _, v, _ in a2) \
+                        and not any(n in self.assigned_before for n, _, _ in a1) \
+                        and not (names_loaded(s.test) & {n for n, _, _ in a1}):
+                    for n, v, st in a2:
+                        res.append(st)
+                        self.assigned_before.add(n)
+                    s.orelse = []
+                    self.applied.append('N5 (line %d)' % s.lineno)
+            if isinstance(s, ast.Assign):
+                for t in s.targets:
+                    if isinstance(t, ast.Name):
+                        self.assigned_before.add(t.id)
             # N3
             if isinstance(s, ast.If) and not s.orelse and isinstance(s.test, ast.UnaryOp) and isinstance(s.test.op, ast.Not) \
                     and isinstance(s.test.operand, ast.Call) and isinstance(s.test.operand.func, ast.Name) \
@@ -274,13 +304,91 @@ class C16Translator(_BaseTr):
         return _BaseTr.signature(self, f)
 
 
+class C16FnTranslator(_BaseFn):
+    """additions of the C16 target (semantics in coq/Base/PyNumSeq.v), all fail closed:
+         [x for x in L if C]            (element = the loop variable, one `if`)  -> filter / py_filterM (C may raise: first exception wins)
+         max(G, default=c) / min(..)    G = (x for x in L if C) of floats, c a float/int literal -> py_fmax_default / py_fmin_default
+         max(l) / min(l) on a list of floats                                   -> py_fmax / py_fmin (None = ValueError on [])
+         not l   for a list l                                                  -> emptiness test"""
+    def filtered(self, comp, env):
+        """-> binds, term of the filtered list, element type; comp is a ListComp / GeneratorExp of the accepted shape"""
+        self.need(len(comp.generators) == 1, comp, 'nested comprehension generators')
+        g = comp.generators[0]
+        self.need(not g.is_async and len(g.ifs) == 1, comp, 'comprehension with %d conditions' % len(g.ifs))
+        self.need(isinstance(g.target, ast.Name) and isinstance(comp.elt, ast.Name) and comp.elt.id == g.target.id, comp,
+                  'filtering comprehension whose element is not the loop variable')
+        b, it, elt, tpat, tnames, _nn = self.iterable(g.iter, g.target, env)
+        cenv = dict(env)
+        for n, t in tnames:
+            cenv[n] = dict(t=t, owned=False, depth=self.loop_depth)
+        bc, tc, tyc = self.expr(g.ifs[0], cenv)
+        if tyc == P.UNK and not self.tr.strict:
+            return b, '?', elt
+        self.need(tyc == P.BOOL, comp, 'comprehension condition of type %s' % (tyc,))
+        if not bc:
+            return b, '(filter (fun %s => %s) %s)' % (tpat, tc, it), elt
+        for pt, _e in bc:
+            if 'self' in pt:
+                self.rej(comp, 'method call inside a comprehension condition')
+        tmp = self.temp()
+        return b + [(tmp, 'py_filterM (fun %s => %s) %s' % (tpat, self.opt_chain(bc, 'Some %s' % tc), it))], tmp, elt
+
+    def expr0(self, e, env):
+        if self.tr.tname == TARGET:
+            if isinstance(e, ast.ListComp) and len(e.generators) == 1 and e.generators[0].ifs:
+                b, term, elt = self.filtered(e, env)
+                return b, term, ('list', elt)
+            if isinstance(e, ast.UnaryOp) and isinstance(e.op, ast.Not):
+                b, term, t = self.expr(e.operand, env)
+                if t != P.UNK and t[0] == 'list':
+                    return b, '(match %s with [] => true | _ :: _ => false end)' % term, P.BOOL
+        return _BaseFn.expr0(self, e, env)
+
+    def call(self, c, env):
+        fn = c.func
+        if self.tr.tname == TARGET and isinstance(fn, ast.Name) and fn.id == 'bisect_left' and fn.id not in env:
+            binds = self.tr.module_bindings(self.tr.file, set())
+            self.need(binds.get('bisect_left') == {'from:bisect:bisect_left'}, c,
+                      'bisect_left is not bound exactly by `from bisect import bisect_left` (%s)' % sorted(binds.get('bisect_left', [])))
+            self.plain_args(c, 2)
+            b1, t1, ty1 = self.expr(c.args[0], env)
+            b2, t2, ty2 = self.expr(c.args[1], env)
+            if (ty1 == P.UNK or ty2 == P.UNK) and not self.tr.strict:
+                return b1 + b2, '?', P.INT
+            self.need(ty1 == ('list', P.FLOAT) and ty2 in (P.INT, P.FLOAT), c, 'bisect_left of %s, %s' % (ty1, ty2))
+            tmp = self.temp()
+            return b1 + b2 + [(tmp, 'py_bisect_left %s %s' % (t1, self.num(t2, ty2, P.FLOAT)))], tmp, P.INT
+        if self.tr.tname == TARGET and isinstance(fn, ast.Name) and fn.id in ('min', 'max') and fn.id not in env and len(c.args) == 1:
+            if isinstance(c.args[0], ast.GeneratorExp):
+                self.need(len(c.keywords) == 1 and c.keywords[0].arg == 'default', c, '%s of a generator without default=' % fn.id)
+                dv = P.lit_value(c.keywords[0].value)
+                self.need(dv is not None, c, 'default= that is not a numeric literal')
+                b, term, elt = self.filtered(c.args[0], env)
+                if term == '?':
+                    return b, '?', P.UNK
+                self.need(elt == P.FLOAT, c, '%s of a generator of %s' % (fn.id, elt))
+                bd, td, tyd = self.expr(c.keywords[0].value, env)
+                return b, '(py_f%s_default %s %s)' % (fn.id, term, self.num(td, tyd, P.FLOAT)), P.FLOAT
+            if not c.keywords:
+                b, term, t = self.expr(c.args[0], env)
+                if t != P.UNK and t[0] == 'list' and t[1] == P.FLOAT:
+                    tmp = self.temp()
+                    return b + [(tmp, 'py_f%s %s' % (fn.id, term))], tmp, P.FLOAT       # ValueError for an empty list
+        return _BaseFn.call(self, c, env)
+
+
 P.NumTranslator = C16Translator
+P.NumFnTranslator = C16FnTranslator
 _render = P.render_num
 
 
 def render_c16(tr, fns):
     text = _render(tr, fns)
     if tr.tname == TARGET:
+        old = 'From SG Require Import Base.QcUtil Base.PyLib Base.PyNum.'
+        if old not in text:
+            raise P.Reject(ast.parse('0'), 'header of the shared translator changed (front end py2gallina_c16.py must follow)')
+        text = text.replace(old, old[:-1] + ' Base.PyNumSeq.', 1)
         text = text.replace('harness/translate/py2gallina.py --target density', 'harness/translate/py2gallina_c16.py', 1)
         doc = ['(* Method bodies AFTER the normalisations N1-N4 of harness/translate/py2gallina_c16.py (what the shared translator saw):']
         for m in METHODS:
